@@ -43,7 +43,6 @@ pub struct State {
     pub viol: Vec<(String, String)>,
     /// name of the operation in flight (for violation keys)
     op: String,
-    next_thing_reply: VecDeque<u32>,
 }
 
 static mut HOST: Option<RHost> = None;
@@ -54,6 +53,7 @@ pub struct RHost {
     pub st: State,
     live_cells: unsafe extern "C" fn() -> u32,
     destroyed_log: unsafe extern "C" fn(*mut u32, usize) -> usize,
+    reset_guest: unsafe extern "C" fn(),
 }
 
 fn host() -> &'static mut RHost {
@@ -70,7 +70,6 @@ impl State {
             destroyed: Vec::new(),
             viol: Vec::new(),
             op: String::new(),
-            next_thing_reply: VecDeque::new(),
         }
     }
     fn violate(&mut self, kind: &str, msg: String) {
@@ -137,26 +136,6 @@ impl State {
     }
     fn alive_borrows(&self) -> usize {
         self.table.iter().filter(|e| e.alive && !e.own).count()
-    }
-}
-
-/// Replace every handle in `v` (typed by `t`) through `f(resource, is_own, handle) -> handle`.
-fn map_handles(t: &Ty, v: &Val, f: &mut dyn FnMut(u32, bool, u32) -> u32) -> Val {
-    match (t, v) {
-        (Ty::Own(r), Val::Handle(h)) => Val::Handle(f(*r, true, *h)),
-        (Ty::Borrow(r), Val::Handle(h)) => Val::Handle(f(*r, false, *h)),
-        (Ty::List(e), Val::List(xs)) => Val::List(xs.iter().map(|x| map_handles(e, x, f)).collect()),
-        (Ty::Record(fs) | Ty::Tuple(fs), Val::Record(xs)) => {
-            Val::Record(fs.iter().zip(xs).map(|(t, x)| map_handles(t, x, f)).collect())
-        }
-        (_, Val::Variant(i, Some(p))) => {
-            let ct = t.cases().and_then(|c| c.get(*i as usize).cloned()).flatten();
-            match ct {
-                Some(ct) => Val::Variant(*i, Some(Box::new(map_handles(&ct, p, f)))),
-                None => v.clone(),
-            }
-        }
-        _ => v.clone(),
     }
 }
 
@@ -267,7 +246,7 @@ unsafe extern "C" fn dispatch(k: u32, args: *const u64, nargs: u32, ret: *mut u6
             let hd = u(&params[0]) as u32;
             if let Some(rep) = st.lift_own(hd, res, &what) {
                 // the component implements the resource: its destructor runs now
-                h.run_dtor(rep);
+                host().run_dtor(rep);
             }
         }
         n if n.starts_with("imp.take-own-") => {
@@ -377,8 +356,55 @@ impl Op {
             Op::CHostDrop(_) => "cell-host-drop".into(),
         }
     }
-    pub fn to_json(&self) -> Value {
-        json!(format!("{self:?}"))
+    pub fn encode(&self) -> String {
+        match self {
+            Op::TNew(a, b) => format!("TNew:{a}:{b}"),
+            Op::TNewErr => "TNewErr".into(),
+            Op::TMethod(a) => format!("TMethod:{a}"),
+            Op::TLend(a, s) => format!("TLend:{a}:{}", s.name()),
+            Op::TTransfer(a, s) => format!("TTransfer:{a}:{}", s.name()),
+            Op::TReceive(a, s) => format!("TReceive:{a}:{}", s.name()),
+            Op::TDrop(a) => format!("TDrop:{a}"),
+            Op::TRecv(s, k) => format!("TRecv:{k}:{}", s.name()),
+            Op::TRecvBorrow(s) => format!("TRecvBorrow:0:{}", s.name()),
+            Op::TReturn(a, s) => format!("TReturn:{a}:{}", s.name()),
+            Op::CNew(a) => format!("CNew:{a}"),
+            Op::CNewErr(a) => format!("CNewErr:{a}"),
+            Op::CMethod(a) => format!("CMethod:{a}"),
+            Op::CBorrow(a, s) => format!("CBorrow:{a}:{}", s.name()),
+            Op::CTake(a, s, k) => format!("CTake:{a}:{}:{k}", s.name()),
+            Op::CGive(s) => format!("CGive:0:{}", s.name()),
+            Op::CGiveKept(a) => format!("CGiveKept:{a}"),
+            Op::CDropKept(a) => format!("CDropKept:{a}"),
+            Op::CHostDrop(a) => format!("CHostDrop:{a}"),
+        }
+    }
+    pub fn decode(s: &str) -> Option<Op> {
+        let p: Vec<&str> = s.split(':').collect();
+        let n = |i: usize| p.get(i).and_then(|x| x.parse::<u8>().ok());
+        let sh = |i: usize| p.get(i).and_then(|x| OWN_SHAPES.iter().find(|s| s.name() == *x).copied());
+        Some(match p[0] {
+            "TNew" => Op::TNew(n(1)?, n(2)?),
+            "TNewErr" => Op::TNewErr,
+            "TMethod" => Op::TMethod(n(1)?),
+            "TLend" => Op::TLend(n(1)?, sh(2)?),
+            "TTransfer" => Op::TTransfer(n(1)?, sh(2)?),
+            "TReceive" => Op::TReceive(n(1)?, sh(2)?),
+            "TDrop" => Op::TDrop(n(1)?),
+            "TRecv" => Op::TRecv(sh(2)?, n(1)?),
+            "TRecvBorrow" => Op::TRecvBorrow(sh(2)?),
+            "TReturn" => Op::TReturn(n(1)?, sh(2)?),
+            "CNew" => Op::CNew(n(1)?),
+            "CNewErr" => Op::CNewErr(n(1)?),
+            "CMethod" => Op::CMethod(n(1)?),
+            "CBorrow" => Op::CBorrow(n(1)?, sh(2)?),
+            "CTake" => Op::CTake(n(1)?, sh(2)?, n(3)?),
+            "CGive" => Op::CGive(sh(2)?),
+            "CGiveKept" => Op::CGiveKept(n(1)?),
+            "CDropKept" => Op::CDropKept(n(1)?),
+            "CHostDrop" => Op::CHostDrop(n(1)?),
+            _ => return None,
+        })
     }
 }
 
@@ -432,7 +458,9 @@ impl Abs {
             v.push(Op::TRecv(s, 0));
         }
         for s in BORROW_SHAPES {
-            v.push(Op::TRecvBorrow(s));
+            if s != Shape::List {
+                v.push(Op::TRecvBorrow(s));
+            }
         }
         // cells
         v.push(Op::CNewErr(0));
@@ -510,7 +538,8 @@ impl RHost {
     pub fn install(lib: Lib, w: World) {
         let live = dlsym(lib.handle, "verif_r_live_cells");
         let log = dlsym(lib.handle, "verif_r_destroyed");
-        if live.is_null() || log.is_null() {
+        let reset = dlsym(lib.handle, "verif_r_reset");
+        if live.is_null() || log.is_null() || reset.is_null() {
             vcommon::machinery("resource chunk lacks verif_r_* symbols");
         }
         unsafe {
@@ -522,6 +551,7 @@ impl RHost {
                 st: State::new(),
                 live_cells: std::mem::transmute(live),
                 destroyed_log: std::mem::transmute(log),
+                reset_guest: std::mem::transmute(reset),
             });
         }
     }
@@ -886,9 +916,16 @@ impl RHost {
     }
 }
 
-/// Run one history in this process (call in a forked child: the guest is not reset).
+/// Run one history in this process. The host model starts fresh; the guest is only as clean as
+/// the previous history left it (a history without violations ends with everything released), so
+/// callers start a new process after any violation.
 pub fn run_trace(ops: &[Op]) -> Value {
     let h = host();
+    h.st = State::new();
+    unsafe {
+        (h.reset_guest)();
+        (h.lib.api.purge)();
+    }
     let live0 = unsafe { (h.lib.api.live_count)() };
     let mut c = Conc::default();
     let mut abs = vec![];
